@@ -1551,6 +1551,32 @@ func @F(n int) int {
 	return t
 }`, Drives: []Drive{fn("int", "@F", "3"), fn("int", "@F", "0")}},
 
+	{Name: "RangeLoopsOnOneSourceLine", Props: []string{"C15", "C11", "C04"}, Src: `
+// valid Go need not be gofmt-ed: several range loops (each needs a helper variable of its own) start on one line
+GEN(int) @G(xs, ys []int) {
+	a, b, c := 0, 0, 0
+	for _, x := range xs { a += x }; for _, w := range ys { b += w }; for i := range xs { c += i }
+	YIELD(a); YIELD(b); YIELD(c)
+	for _, x := range xs { YIELD(x) }; for _, w := range ys { YIELD(w) }
+	RETURN
+}`, Drives: []Drive{gen("int", "@G", "[]int{1, 2, 3}, []int{10, 20}")}},
+
+	{Name: "RangeAssignFormReadAfterLoop", Props: []string{"C03", "C04", "C01"}, Src: `
+// the '=' form assigns to variables declared OUTSIDE the loop even when the body never mentions them: the code
+// after the loop and closures made before it see the last element
+GEN(int) @G(xs []string) {
+	i, s := -1, "none"
+	seen := func() int { return 100*i + len(s) }
+	for i, s = range xs { YIELD(7) }
+	YIELD(i)
+	YIELD(len(s))
+	YIELD(seen())
+	k := -5
+	for k = range len(xs) { vm.E("tick") }
+	YIELD(k)
+	RETURN
+}`, Drives: []Drive{gen("int", "@G", `[]string{"a", "bb", "ccc"}`), gen("int", "@G", "nil")}},
+
 	{Name: "TypeSwitchScopes", Props: []string{"C03", "C01"}, Src: `
 GEN(int) @G(vs []any) {
 	for _, v := range vs {
